@@ -75,6 +75,24 @@ fn forms(full: bool) -> Vec<(String, Query)> {
         out.push((format!("{n}:having-v-null"), sel(items(), mk(vec![k(), v()]), Some(E::IsNull(Box::new(v()), false)), false)));
         out.push((format!("{n}:having-k-or-n"), sel(items(), mk(vec![k(), v()]), Some(bin(Op::Or, bin(Op::Eq, k(), E::Int(2)), bin(Op::Gt, cnt.clone(), E::Int(1)))), false)));
     }
+    // DISTINCT aggregates above several grouping sets: duplicates are removed per grouping set, not per finest group
+    {
+        let cd = agg(AggF::Count, Some(v()), true, None);
+        let sd = agg(AggF::Sum, Some(v()), true, None);
+        let items = |with_v: bool| {
+            let mut it = vec![Item::Expr(k(), None)];
+            if with_v {
+                it.push(Item::Expr(v(), None));
+            }
+            it.push(Item::Expr(cd.clone(), Some("cd".into())));
+            it.push(Item::Expr(sd.clone(), Some("sd".into())));
+            it.push(Item::Expr(cnt.clone(), Some("n".into())));
+            it
+        };
+        out.push(("rollup:k:distinct-aggs".into(), sel(items(false), GroupBy::Rollup(vec![k()]), None, false)));
+        out.push(("rollup:kv:distinct-aggs".into(), sel(items(true), GroupBy::Rollup(vec![k(), v()]), None, false)));
+        out.push(("cube:kv:distinct-aggs".into(), sel(items(true), GroupBy::Cube(vec![k(), v()]), None, false)));
+    }
     out.push(("rollup:k".into(), sel(vec![Item::Expr(k(), None), Item::Expr(E::Grouping(Box::new(k())), Some("gk".into())), Item::Expr(cnt.clone(), Some("n".into()))], GroupBy::Rollup(vec![k()]), None, false)));
     if full {
         out.push(("rollup:shared-expr".into(), sel(vec![Item::Expr(ke.clone(), Some("ke".into())), Item::Expr(v(), None), Item::Expr(cnt.clone(), Some("n".into()))], GroupBy::Rollup(vec![ke.clone(), v()]), None, false)));
